@@ -24,3 +24,408 @@ theorem concat2_shape {α : Type} (a b : NDArr α) (axis : Nat) :
     (a.concat2 b axis).shape = a.shape.set axis (a.shape.getD axis 0 + b.shape.getD axis 0) := rfl
 
 end DimModel
+
+/-! ### auxiliary lemmas (namespace `DimModel.C12`) and the theorems on `stack` / `concatenate` -/
+
+namespace DimModel
+open Lib
+namespace C12
+
+theorem mapM_ok_mem {ε α β : Type} (f : α → Except ε β) :
+    ∀ (l : List α) (out : List β), l.mapM f = .ok out → ∀ o ∈ out, ∃ a ∈ l, f a = .ok o := by
+  intro l
+  induction l with
+  | nil => intro out h o ho; simp [List.mapM_nil, pure, Except.pure] at h; subst h; simp at ho
+  | cons a l ih =>
+    intro out h o ho
+    rw [List.mapM_cons] at h
+    simp only [bind, Except.bind, pure, Except.pure] at h
+    cases hfa : f a with
+    | error e => simp [hfa] at h
+    | ok b =>
+      simp only [hfa] at h
+      cases hl : l.mapM f with
+      | error e => simp [hl] at h
+      | ok bs =>
+        simp only [hl] at h
+        injection h with h
+        subst h
+        rcases List.mem_cons.1 ho with rfl | ho
+        · exact ⟨a, List.mem_cons_self, hfa⟩
+        · obtain ⟨a', ha', h'⟩ := ih bs hl o ho
+          exact ⟨a', List.mem_cons_of_mem _ ha', h'⟩
+
+theorem mapM_error_mem {ε α β : Type} (f : α → Except ε β) :
+    ∀ (l : List α) (e : ε), l.mapM f = .error e → ∃ a ∈ l, f a = .error e := by
+  intro l
+  induction l with
+  | nil => intro e h; simp [List.mapM_nil, pure, Except.pure] at h
+  | cons a l ih =>
+    intro e h
+    rw [List.mapM_cons] at h
+    simp only [bind, Except.bind, pure, Except.pure] at h
+    cases hfa : f a with
+    | error e' => simp only [hfa] at h; injection h with h; subst h; exact ⟨a, List.mem_cons_self, hfa⟩
+    | ok b =>
+      simp only [hfa] at h
+      cases hl : l.mapM f with
+      | error e' =>
+        simp only [hl] at h; injection h with h; subst h
+        obtain ⟨a', ha', h'⟩ := ih _ hl
+        exact ⟨a', List.mem_cons_of_mem _ ha', h'⟩
+      | ok bs => simp [hl] at h
+
+private def posOf {α : Type} (a : DimArray α) (k : DimKey) : Except Err Int :=
+  match k with
+    | .name s =>
+      let p := a.dims.idxOf s
+      if p < a.dims.length then .ok (p : Int) else .error .value
+    | .pos i => .ok i
+
+theorem axesPositions_names {α : Type} (a : DimArray α) :
+    ∀ (names : List String) (pi : List Int), axesPositions a (names.map DimKey.name) = .ok pi →
+      pi = names.map (fun s => ((a.dims.idxOf s : Nat) : Int)) ∧ ∀ s ∈ names, a.dims.idxOf s < a.dims.length := by
+  intro names
+  have hdef : ∀ ks, axesPositions a ks = ks.mapM (posOf a) := fun _ => rfl
+  simp only [hdef]
+  induction names with
+  | nil => intro pi h; simp [List.mapM_nil, pure, Except.pure] at h; subst h; simp
+  | cons s names ih =>
+    intro pi h
+    rw [List.map_cons, List.mapM_cons] at h
+    cases hl : List.mapM (posOf a) (names.map DimKey.name) with
+    | error e =>
+      rw [hl] at h
+      simp only [bind, Except.bind] at h
+      split at h <;> simp at h
+    | ok bs =>
+      rw [hl] at h
+      simp only [bind, Except.bind, pure, Except.pure, posOf] at h
+      by_cases hs : a.dims.idxOf s < a.dims.length
+      · simp only [hs, if_true] at h
+        injection h with h
+        subst h
+        obtain ⟨h1, h2⟩ := ih bs hl
+        refine ⟨by simp [h1], ?_⟩
+        intro s' hs'
+        rcases List.mem_cons.1 hs' with rfl | hs'
+        · exact hs
+        · exact h2 _ hs'
+      · simp [hs] at h
+
+private def normOne (n : Nat) (i : Int) : Except Err Nat :=
+    let j : Int := if i < 0 then i + (n : Int) else i
+    if j < 0 || j ≥ (n : Int) then (.error .value : Except Err Nat)
+    else .ok j.toNat
+
+theorem mapM_normOne (n : Nat) : ∀ (l : List Nat), (∀ k ∈ l, k < n) →
+    (l.map (fun (k : Nat) => (k : Int))).mapM (normOne n) = .ok l := by
+  intro l
+  induction l with
+  | nil => intro _; rfl
+  | cons k l ih =>
+    intro hk
+    rw [List.map_cons, List.mapM_cons, ih (fun k' hk' => hk k' (List.mem_cons_of_mem _ hk'))]
+    have hkn : k < n := hk k List.mem_cons_self
+    have h1 : ¬ ((k : Int) < 0) := by omega
+    have h2 : ¬ ((k : Int) ≥ (n : Int)) := by omega
+    simp [normOne, h1, h2, bind, Except.bind, pure, Except.pure]
+
+theorem normPerm_nat (n : Nat) (l q : List Nat) (hl : ∀ k ∈ l, k < n)
+    (h : normPerm n (l.map (fun (k : Nat) => (k : Int))) = .ok q) : q = l := by
+  unfold normPerm at h
+  have hdef : ∀ (p : List Int), p.mapM (fun (i : Int) =>
+    let j : Int := if i < 0 then i + (n : Int) else i
+    if j < 0 || j ≥ (n : Int) then (.error .value : Except Err Nat)
+    else .ok j.toNat) = p.mapM (normOne n) := fun _ => rfl
+  rw [hdef, mapM_normOne n l hl] at h
+  simp only [bind, Except.bind, pure, Except.pure] at h
+  split at h
+  · simp at h
+  · split at h
+    · simp at h
+    · injection h with h; exact h.symm
+
+theorem transposeBy_dims_names {α : Type} (a : DimArray α) (names : List String)
+    (h : ∀ s ∈ names, a.dims.idxOf s < a.dims.length) :
+    (transposeBy a (names.map (fun s => a.dims.idxOf s))).dims = names := by
+  simp only [transposeBy, DimArray.dims, List.map_map]
+  conv => rhs; rw [← List.map_id names]
+  apply List.map_congr_left
+  intro s hs
+  have := h s hs
+  simp only [DimArray.dims, List.length_map] at this
+  simp only [Function.comp, id]
+  have h2 := List.getElem_idxOf (xs := a.axes.map (·.name)) (x := s) (by simpa using this)
+  simp only [List.getD_eq_getElem?_getD, List.getElem?_eq_getElem this, Option.getD_some]
+  rw [List.getElem_map] at h2
+  exact h2
+
+/-- transposing to a list of dimension names yields exactly those dims
+(`hn` is not needed by the proof, it is kept as documentation of the intended use) -/
+theorem _root_.DimModel.transpose_names_dims {α : Type} (a r : DimArray α) (names : List String) (hn : a.dims.Nodup)
+    (h : transpose a (some (names.map DimKey.name)) = .ok r) (hne : names ≠ []) : r.dims = names := by
+  unfold transpose at h
+  have he : (names.map DimKey.name).isEmpty = false := by
+    cases names with
+    | nil => exact absurd rfl hne
+    | cons s t => rfl
+  simp only [he, bind, Except.bind, pure, Except.pure, Bool.and_false, Bool.false_eq_true, if_false] at h
+  cases hp : axesPositions a (names.map DimKey.name) with
+  | error e => simp [hp] at h
+  | ok pi =>
+    simp only [hp] at h
+    obtain ⟨h1, h2⟩ := axesPositions_names a names pi hp
+    cases hq : normPerm a.ndim pi with
+    | error e => simp [hq] at h
+    | ok q =>
+      simp only [hq] at h
+      injection h with h
+      subst h
+      have h1' : pi = (names.map (fun s => a.dims.idxOf s)).map (fun (k : Nat) => (k : Int)) := by
+        rw [h1, List.map_map]; rfl
+      rw [h1'] at hq
+      have hq' := normPerm_nat a.ndim _ q (by
+        intro k hk
+        obtain ⟨s, hs, rfl⟩ := List.mem_map.1 hk
+        have := h2 s hs
+        simpa [DimArray.dims, DimArray.ndim] using this) hq
+      subst hq'
+      exact transposeBy_dims_names a names h2
+
+/-- the per-array step of `reorderLikeFirst` -/
+private def reorderOne {α : Type} (a0 a : DimArray α) : Except Err (DimArray α) :=
+  if a.dims == a0.dims then pure a
+  else match transpose a (some (a0.dims.map DimKey.name)) with
+    | .ok r => pure r
+    | .error _ => .error .value
+
+theorem reorderLikeFirst_cons {α : Type} (a0 : DimArray α) (rest : List (DimArray α)) :
+    reorderLikeFirst (a0 :: rest) = (a0 :: rest).mapM (reorderOne a0) := rfl
+
+theorem reorderOne_same {α : Type} (a0 a : DimArray α) (h : a.dims = a0.dims) :
+    reorderOne a0 a = .ok a := by
+  simp [reorderOne, h, pure, Except.pure]
+
+theorem reorderOne_dims {α : Type} (a0 a o : DimArray α) (hn : a.dims.Nodup) (hne : a0.dims ≠ [])
+    (h : reorderOne a0 a = .ok o) : o.dims = a0.dims := by
+  unfold reorderOne at h
+  by_cases hd : a.dims = a0.dims
+  · simp only [hd, beq_self_eq_true, if_true, pure, Except.pure] at h
+    injection h with h; subst h; exact hd
+  · have : (a.dims == a0.dims) = false := by simpa using hd
+    simp only [this, Bool.false_eq_true, if_false] at h
+    cases ht : transpose a (some (a0.dims.map DimKey.name)) with
+    | error e => simp [ht] at h
+    | ok r =>
+      simp only [ht, pure, Except.pure] at h
+      injection h with h; subst h
+      exact transpose_names_dims a r a0.dims hn ht hne
+
+theorem reorderOne_error {α : Type} (a0 a : DimArray α) (e : Err)
+    (h : reorderOne a0 a = .error e) : e = .value := by
+  unfold reorderOne at h
+  split at h
+  · simp [pure, Except.pure] at h
+  · split at h
+    · simp [pure, Except.pure] at h
+    · injection h with h; exact h.symm
+
+/-- inputs are matched by dimension name: after `reorderLikeFirst` every array lists the dimensions
+of the first one (otherwise the join is refused) -/
+theorem _root_.DimModel.reorderLikeFirst_dims {α : Type} (a0 : DimArray α) (rest out : List (DimArray α))
+    (hn : ∀ a ∈ a0 :: rest, a.dims.Nodup) (hne : a0.dims ≠ [])
+    (h : reorderLikeFirst (a0 :: rest) = .ok out) : ∀ o ∈ out, o.dims = a0.dims := by
+  intro o ho
+  rw [reorderLikeFirst_cons] at h
+  obtain ⟨a, ha, hfa⟩ := mapM_ok_mem _ _ _ h o ho
+  exact reorderOne_dims a0 a o (hn a ha) hne hfa
+
+/-- `reorderLikeFirst` refuses (ValueError) rather than joining positionally: every error is a ValueError -/
+theorem _root_.DimModel.reorderLikeFirst_error {α : Type} (a0 : DimArray α) (rest : List (DimArray α)) (e : Err)
+    (h : reorderLikeFirst (a0 :: rest) = .error e) : e = .value := by
+  rw [reorderLikeFirst_cons] at h
+  obtain ⟨a, _, hfa⟩ := mapM_error_mem _ _ _ h
+  exact reorderOne_error a0 a e hfa
+
+/-- the first array is returned unchanged in first position -/
+theorem reorderLikeFirst_head {α : Type} (a0 : DimArray α) (rest out : List (DimArray α))
+    (h : reorderLikeFirst (a0 :: rest) = .ok out) : ∃ t, out = a0 :: t := by
+  rw [reorderLikeFirst_cons, List.mapM_cons, reorderOne_same a0 a0 rfl] at h
+  simp only [bind, Except.bind, pure, Except.pure] at h
+  cases hl : rest.mapM (reorderOne a0) with
+  | error e => simp [hl] at h
+  | ok t =>
+    simp only [hl] at h
+    injection h with h
+    exact ⟨t, h.symm⟩
+
+/-- inversion of a successful `stack` without alignment -/
+theorem stack_inv {α : Type} [Inhabited α] (nan : α) (arrays : List (DimArray α)) (axis : Option String)
+    (keys : List Label) (kk : Kind) (r : DimArray α)
+    (h : stack nan arrays axis keys kk false false = .ok r) :
+    ∃ (name : String) (arrs : List (DimArray α)) (axes : List Axis),
+      reorderLikeFirst arrays = .ok arrs ∧
+      getAxesAligned (arrs.map (·.axes)) = .ok axes ∧
+      (∀ x ∈ arrs, ∀ y ∈ x.axes, ∃ c, axes.find? (·.name == y.name) = some c ∧ c.labels = y.labels) ∧
+      keys.length = arrs.length ∧
+      r = { axes := { name := name, labels := keys, kind := kk } :: axes.map (fun ax => { ax with }),
+            vals := NDArr.stackNew (arrs.map (·.vals)),
+            vkind := (arrs.head?.map (·.vkind)).getD .f, attrs := [] } := by
+  unfold stack at h
+  simp only [bind, Except.bind, pure, Except.pure, Bool.false_eq_true, if_false] at h
+  cases hname : checkStackAxis axis (getDims (arrays.map (·.axes))) with
+  | error e => simp [hname] at h
+  | ok name =>
+    simp only [hname] at h
+    cases harrs : reorderLikeFirst arrays with
+    | error e => simp [harrs] at h
+    | ok arrs =>
+      simp only [harrs] at h
+      split at h
+      · simp at h
+      · cases haxes : getAxesAligned (arrs.map (·.axes)) with
+        | error e => simp [haxes] at h
+        | ok axes =>
+          simp only [haxes] at h
+          split at h
+          · simp at h
+          · rename_i hchk
+            split at h
+            · simp at h
+            · rename_i hlen
+              injection h with h
+              subst h
+              refine ⟨name, arrs, axes, rfl, haxes, ?_, ?_, rfl⟩
+              · intro x hx y hy
+                cases hf : axes.find? (·.name == y.name) with
+                | none =>
+                  exfalso; apply hchk
+                  rw [List.any_eq_true]
+                  refine ⟨x, hx, ?_⟩
+                  rw [List.any_eq_true]
+                  exact ⟨y, hy, by simp only [hf]⟩
+                | some c =>
+                  refine ⟨c, rfl, ?_⟩
+                  apply Classical.byContradiction
+                  intro hne
+                  apply hchk
+                  rw [List.any_eq_true]
+                  refine ⟨x, hx, ?_⟩
+                  rw [List.any_eq_true]
+                  exact ⟨y, hy, by simp only [hf]; simpa using hne⟩
+              · simpa using hlen
+
+/-- **stack**: when it succeeds the first dimension is the new axis labelled by the keys, the other
+axes follow, metadata is dropped, and the slice at position `k` of the new dimension is exactly the
+(aligned, name-ordered) array `k` -/
+theorem _root_.DimModel.stack_spec {α : Type} [Inhabited α] (nan : α) (arrays : List (DimArray α)) (axis : Option String)
+    (keys : List Label) (kk : Kind) (r : DimArray α)
+    (h : stack nan arrays axis keys kk false false = .ok r) :
+    ∃ (name : String) (arrs : List (DimArray α)),
+      reorderLikeFirst arrays = .ok arrs ∧
+      r.dims.head? = some name ∧
+      (r.axes.head?.map (·.labels)) = some keys ∧
+      r.attrs = [] ∧
+      ∀ k j, r.vals.get (k :: j) = ((arrs.map DimArray.vals).getD k default).get j := by
+  obtain ⟨name, arrs, axes, h1, _, _, _, rfl⟩ := stack_inv nan arrays axis keys kk r h
+  exact ⟨name, arrs, h1, rfl, rfl, rfl, fun k j => rfl⟩
+
+theorem reorderLikeFirst_pair_same {α : Type} (a b : DimArray α) (hd : a.dims = b.dims) :
+    reorderLikeFirst [a, b] = .ok [a, b] := by
+  rw [reorderLikeFirst_cons, List.mapM_cons, List.mapM_cons, List.mapM_nil,
+    reorderOne_same a a rfl, reorderOne_same a b hd.symm]
+  rfl
+
+/-- **stack refuses misaligned inputs**: without `align`, if some input (listing its dimensions like
+the first one) carries on some axis labels that differ from another input's labels on that
+dimension, the result is an error - never a positional join.
+(`hsz`, `hplain`, `hna` are not needed by the proof: the post-check of `stack` compares the labels of
+every input axis with the common axis of the same name, whatever the sizes.) -/
+theorem _root_.DimModel.stack_error_is_not_ok_of_label_mismatch {α : Type} [Inhabited α] (nan : α) (a b : DimArray α)
+    (axis : Option String) (keys : List Label) (kk : Kind)
+    (hd : a.dims = b.dims) (ax : Axis) (bx : Axis) (ha : ax ∈ a.axes) (hb : bx ∈ b.axes)
+    (hname : ax.name = bx.name) (hsz : ax.size = bx.size) (hplain : ax.members = [] ∧ bx.members = [])
+    (hna : a.dims.Nodup) (hl : ax.labels ≠ bx.labels) :
+    ∀ r, stack nan [a, b] axis keys kk false false ≠ .ok r := by
+  intro r h
+  obtain ⟨name, arrs, axes, h1, _, hchk, _, _⟩ := stack_inv nan [a, b] axis keys kk r h
+  rw [reorderLikeFirst_pair_same a b hd] at h1
+  injection h1 with h1
+  subst h1
+  apply hl
+  obtain ⟨c1, hc1, hl1⟩ := hchk a (by simp) ax ha
+  obtain ⟨c2, hc2, hl2⟩ := hchk b (by simp) bx hb
+  rw [hname, hc2] at hc1
+  injection hc1 with hc1
+  subst hc1
+  rw [← hl1, ← hl2]
+
+theorem getD_insert_mid {β : Type} (l : List β) (pos : Nat) (x d : β) (g : β → β) (hpos : pos ≤ l.length) :
+    ((l.take pos ++ [x] ++ l.drop pos).map g).getD pos d = g x := by
+  have hlen : (l.take pos).length = pos := by simp [List.length_take, Nat.min_eq_left hpos]
+  rw [List.getD_eq_getElem?_getD, List.getElem?_map, List.append_assoc,
+    List.getElem?_append_right (by omega), hlen]
+  simp
+
+theorem ok_of_ite_error {ε β : Type} {c : Prop} [Decidable c] {e : ε} {x : Except ε β} {r : β}
+    (h : (if c then Except.error e else x) = .ok r) : x = .ok r := by
+  by_cases hc : c
+  · rw [if_pos hc] at h; cases h
+  · rw [if_neg hc] at h; exact h
+
+set_option hygiene false in
+/-- the part of the proof of `concatenate_labels` after the position `pos` of the axis is known:
+expects `h : (match reorderLikeFirst (a0 :: rest) with ...) = .ok r` and `hlt : pos < a0.axes.length` -/
+local macro "concat_tail" p:term : tactic => `(tactic| (
+  cases harrs : reorderLikeFirst (a0 :: rest) with
+  | error e => simp [harrs] at h
+  | ok arrs =>
+    simp only [harrs] at h
+    obtain ⟨t, rfl⟩ := reorderLikeFirst_head a0 rest arrs harrs
+    simp only [List.headD_cons] at h
+    replace h := ok_of_ite_error h
+    replace h := ok_of_ite_error h
+    generalize concatVals _ _ = cv at h
+    cases cv with
+    | none => simp at h
+    | some v =>
+      simp only at h
+      injection h with h
+      subst h
+      refine ⟨$p, a0 :: t, rfl, ?_, rfl⟩
+      simp only []
+      rw [getD_insert_mid]
+      rw [List.length_eraseIdx]
+      split <;> omega))
+
+/-- **concatenate**: the labels along the concatenation axis are the inputs' labels concatenated in
+input order; metadata is dropped -/
+theorem _root_.DimModel.concatenate_labels {α : Type} (nan : α) (arrays : List (DimArray α)) (axis : DimKey) (r : DimArray α)
+    (h : concatenate nan arrays axis false false = .ok r) :
+    ∃ (pos : Nat) (arrs : List (DimArray α)),
+      reorderLikeFirst arrays = .ok arrs ∧
+      (r.axes.getD pos default).labels = arrs.flatMap (fun a => (a.axes.getD pos default).labels) ∧
+      r.attrs = [] := by
+  unfold concatenate at h
+  cases arrays with
+  | nil => simp [bind, Except.bind] at h
+  | cons a0 rest =>
+    cases axis with
+    | name s =>
+      by_cases hp : a0.dims.idxOf s < a0.dims.length
+      · have hlt : a0.dims.idxOf s < a0.axes.length := by simpa [DimArray.dims] using hp
+        simp only [hp, if_true, bind, Except.bind, pure, Except.pure, Bool.false_eq_true, if_false] at h
+        concat_tail (a0.dims.idxOf s)
+      · simp [hp, bind, Except.bind, pure, Except.pure] at h
+    | pos i =>
+      by_cases hp : (i < 0 || i ≥ (a0.ndim : Int)) = true
+      · simp [hp, bind, Except.bind, pure, Except.pure] at h
+      · have hlt : i.toNat < a0.axes.length := by
+          simp [DimArray.ndim] at hp
+          omega
+        simp only [hp, bind, Except.bind, pure, Except.pure, Bool.false_eq_true, if_false] at h
+        concat_tail i.toNat
+
+end C12
+end DimModel
